@@ -564,7 +564,7 @@ func main() {
 	timeout := 5 * time.Second
 	nestDepth := 7 // 2^7 re-parses of the innermost body cost about a millisecond
 	if thorough {
-		nestDepth = 10
+		nestDepth = 9
 		truncAllBelow, truncSample, mutPerFile = 1<<30, 0, 6000
 		rangeSampleEvery, errSampleEvery, cursorSampleEvery = 40, 60, 60
 		timeout = 10 * time.Second
